@@ -621,6 +621,140 @@ def r18e(ctx, run):
         raise LookupError("push_num calls in ty_info: %d" % n)
 
 
+def r18g(ctx, run):
+    """type ids identify TYPES: to_type_id evaluated as a state machine on symbolic types - a type keeps its id, and two
+    different types (in particular two instantiations of one generic nominal declaration, which share the declaration's
+    uid) get different ids and their own rows"""
+    from symint import SymInterp, Env
+    from absint import Obj, Term, Variant, Panic, CannotEstablish
+    conv = "codegen/src/convert.rs"
+    fn = ctx.syn.fn("Intern::to_type_id", conv)
+    prev = ctx.syn.fn("Intern::to_previous_type_id", conv)
+
+    class Counter:
+        def __init__(self):
+            self.n = 0
+
+    class AutoObj(Obj):
+        """MetaTyData: fields that are not modelled explicitly are created on first use as empty maps"""
+        pass
+
+    def mk_state():
+        st = AutoObj("MetaTyData", type_ids=[], tys_to_compile=[])
+        return st
+
+    def resolver(path):
+        last = path.rsplit("::", 1)[-1]
+        c = [f for f in ctx.syn.fns_in(conv) if f.body is not None and f.qual.rsplit("::", 1)[-1] == last and not f.in_test]
+        return c[0] if len(c) == 1 else None
+
+    class TI(SymInterp):
+        def eval(self, e, env):
+            if e["k"] == "field":
+                b = self.eval(e["e"], env)
+                if isinstance(b, AutoObj) and e["m"] not in b.fields:
+                    b.fields[e["m"]] = Counter() if e["m"].endswith("_uid_gen") else {}
+                if isinstance(b, AutoObj):
+                    return b.fields[e["m"]]
+            if e["k"] == "cast":
+                v = self.eval(e["e"], env)
+                if isinstance(v, bool):
+                    return int(v)
+                if isinstance(v, int):
+                    return v
+            return super().eval(e, env)
+
+        def binop(self, op, l, r, e):
+            if op in ("==", "!=") and isinstance(l, Variant) and isinstance(r, Variant):
+                return (l == r) == (op == "==")
+            return super().binop(op, l, r, e)
+
+        def default_method(self, recv, m, args, e):
+            if isinstance(recv, Counter) and m == "generate_unique_id":
+                recv.n += 1
+                return recv.n - 1
+            if isinstance(recv, dict):
+                if m == "get":
+                    return recv.get(args[0])
+                if m == "insert":
+                    recv[args[0]] = args[1]
+                    return None
+                if m == "contains_key":
+                    return args[0] in recv
+                if m == "entry":
+                    raise CannotEstablish("map entry API in the id cache")
+            if m in ("copied", "cloned") :
+                return recv
+            if isinstance(recv, Variant) and recv.last == "TySym" or (isinstance(recv, Variant) and recv.path.startswith("Ty::")):
+                if m == "to_type_id":
+                    return self.inline(fn, args, recv=recv)
+                if m == "to_previous_type_id":
+                    return self.inline(prev, args, recv=recv)
+                if m in ("size", "align", "stride"):
+                    return 8
+            if m in ("bits",):
+                return 64
+            if m in ("bytes",):
+                return 8
+            if m == "expect" and recv is None:
+                raise Panic("expect on None: %s" % canon(e["a"][0])[:60])
+            return super().default_method(recv, m, args, e)
+
+    I64, U16 = Variant("Ty::IInt", {"0": 64}), Variant("Ty::UInt", {"0": 16})
+    M = lambda t: [Obj("MemberTy", name=Term("val"), ty=t)]
+
+    class Mem(Obj):
+        def __eq__(self, o):
+            return isinstance(o, Obj) and self.fields == o.fields
+
+        def __hash__(self):
+            return 1
+    mem = lambda t: [Mem("MemberTy", name=Term("val"), ty=t)]
+    pairs = [
+        ("two instantiations of a generic struct", Variant("Ty::ConcreteStruct", {"uid": 7, "members": mem(I64)}), Variant("Ty::ConcreteStruct", {"uid": 7, "members": mem(U16)})),
+        ("two instantiations of a generic distinct", Variant("Ty::Distinct", {"uid": 7, "sub_ty": I64}), Variant("Ty::Distinct", {"uid": 7, "sub_ty": U16})),
+        ("two instantiations of a generic enum variant", Variant("Ty::EnumVariant", {"enum_uid": 3, "variant_name": Term("n"), "uid": 7, "sub_ty": I64, "discriminant": 0}),
+         Variant("Ty::EnumVariant", {"enum_uid": 3, "variant_name": Term("n"), "uid": 7, "sub_ty": U16, "discriminant": 0})),
+        ("two different structs", Variant("Ty::ConcreteStruct", {"uid": 7, "members": mem(I64)}), Variant("Ty::ConcreteStruct", {"uid": 8, "members": mem(I64)})),
+        ("^i64 and ^u16", Variant("Ty::Pointer", {"mutable": False, "sub_ty": I64}), Variant("Ty::Pointer", {"mutable": False, "sub_ty": U16})),
+        ("^i64 and ^mut i64", Variant("Ty::Pointer", {"mutable": False, "sub_ty": I64}), Variant("Ty::Pointer", {"mutable": True, "sub_ty": I64})),
+        ("?i64 and ?u16", Variant("Ty::Optional", {"sub_ty": I64}), Variant("Ty::Optional", {"sub_ty": U16})),
+        ("[]i64 and []u16", Variant("Ty::Slice", {"sub_ty": I64}), Variant("Ty::Slice", {"sub_ty": U16})),
+        ("[2]i64 and [3]i64", Variant("Ty::ConcreteArray", {"size": 2, "sub_ty": I64}), Variant("Ty::ConcreteArray", {"size": 3, "sub_ty": I64})),
+    ]
+    consts = {}
+    for f, it_ in ctx.syn.items_of("const", conv):
+        v = synq.int_value(it_["e"])
+        if v is not None:
+            consts[it_["name"]] = v
+    for desc, A, B in pairs:
+        st = mk_state()
+        it = TI(resolver=resolver, macros={"assert": lambda i, e, env: None, "debug": lambda i, e, env: None})
+        it.consts.update(consts)
+        ptr = Term("pointer_ty")
+        key = "ids:" + desc
+        try:
+            a1 = it.inline(fn, [st, ptr], recv=A)
+            b1 = it.inline(fn, [st, ptr], recv=B)
+            a2 = it.inline(fn, [st, ptr], recv=A)
+            b2 = it.inline(prev, [st], recv=B)
+        except (Panic, CannotEstablish) as c:
+            run.finding("to_type_id", key, fn.file, fn.ln, "cannot establish the ids of %s: %s" % (desc, getattr(c, "what", c)))
+            continue
+        pushed = [t for t in st.fields["tys_to_compile"]]
+        problems = []
+        if a1 != a2:
+            problems.append("the first type gets id %#x and then %#x" % (a1, a2))
+        if b1 != b2:
+            problems.append("to_previous_type_id gives %#x for a type registered as %#x" % (b2, b1))
+        if a1 == b1:
+            problems.append("both get the id %#x" % a1)
+        if not (any(t == A for t in pushed) and any(t == B for t in pushed)):
+            problems.append("not both types were queued for their own reflection rows (tys_to_compile = %d entries)" % len(pushed))
+        run.check(not problems, fn.site(), "%s: distinct, stable ids (%#x, %#x), both queued" % (desc, a1, b1), "to_type_id", key, fn.file, fn.ln,
+                  "%s: %s - a type id must identify one type: reflection (size_of, get_type_info, any) would describe the other type" % (desc, "; ".join(problems)))
+
+
 def rules(ctx):
     return [
         Rule("R18.a", "discriminant constants agree (Rust/capy), simple<16<=indexed, each Ty arm uses its own discriminant and uid generator", 60, r18a),
@@ -628,5 +762,6 @@ def rules(ctx):
         Rule("R18.c", "builtin names: every #builtin use in core has a handler of the matching kind and signature", 50, r18c),
         Rule("R18.d", "per record kind: writer field order/widths = meta.capy struct = BuiltinKind::to_expected", 40, r18d),
         Rule("R18.e", "reflected sizes/aligns/offsets come from codegen's own layout queries", 15, r18e),
+        Rule("R18.g", "type ids identify types: to_type_id as a state machine - stable id per type, distinct ids (and rows) for distinct types incl. generic instantiations", 9, r18g),
         Rule("R18.f", "the kind chain K_infos / K_layouts is name-consistent through every table", 70, r18f),
     ]
